@@ -270,6 +270,13 @@ impl SignatureContext<'_> {
                 None
             });
 
+            // every signed header must be in the request
+            for name in &presigned_url.signed_headers {
+                if headers.get_all(name).next().is_none() {
+                    return Err(invalid_request!("signed header is not in the request: {}", name));
+                }
+            }
+
             let method = &self.req_method;
             let uri_path = &self.decoded_uri_path;
 
